@@ -267,6 +267,27 @@ CTORS = {'NoneV', 'BoolV', 'IntV', 'FloatV', 'PInf', 'NInf', 'NaN', 'StrV', 'Byt
          'TupleV', 'ListV', 'DictV', 'SetV', 'EnumV', 'ObjV', 'ClsV'}
 
 
+def wf_known(v):
+    """well-formedness facts of a value whose constructor is known (global assumptions of the value
+    model: floats are within range, dict bookkeeping is consistent (A4), bytes are bytes)"""
+    c = _c(v)
+    i = z3.Int('wf!i')
+    j = z3.Int('wf!j')
+    if c == 'FloatV':
+        return z3.And(v.arg(0) <= FMAXR, v.arg(0) >= -FMAXR)
+    if c == 'DictV':
+        ks, has = v.arg(0), v.arg(1)
+        return z3.And(
+            z3.ForAll([i], z3.Implies(z3.And(0 <= i, i < z3.Length(ks)),
+                                      z3.And(V.is_StrV(ks[i]), z3.Select(has, V.s(ks[i]))))),
+            z3.ForAll([i, j], z3.Implies(z3.And(0 <= i, i < j, j < z3.Length(ks)), ks[i] != ks[j])),
+            z3.Implies(z3.Length(ks) == 0, has == EMPTY_HAS))
+    if c == 'BytesV':
+        b = v.arg(0)
+        return z3.ForAll([i], z3.Implies(z3.And(0 <= i, i < z3.Length(b)), z3.And(b[i] >= 0, b[i] <= 255)))
+    return None
+
+
 def wf(v, depth=2):
     """well-formedness of an input value (finite floats in range, dict key
     bookkeeping consistent, nested to `depth` levels by quantifiers)"""
